@@ -75,6 +75,8 @@ def theory_axioms(formulas):
     ax.extend(bag_heap_axioms(formulas))
     ax.extend(inf_axioms(formulas))
     ax.extend(sum_axioms(formulas))
+    from .cplx import cabs_axioms
+    ax.extend(cabs_axioms(formulas))
     return ax
 
 
@@ -180,16 +182,21 @@ def cnt_unfold_axioms(formulas):
 
 
 def _is_ground(e):
-    seen, stack = set(), [e]
+    """no free (de Bruijn) variable: variables bound by a quantifier / lambda *inside* e do not count"""
+    seen, stack = set(), [(e, 0)]
     while stack:
-        t = stack.pop()
-        if t.get_id() in seen:
+        t, depth = stack.pop()
+        key = (t.get_id(), depth)
+        if key in seen:
             continue
-        seen.add(t.get_id())
+        seen.add(key)
         if z3.is_var(t):
-            return False
-        if z3.is_app(t):
-            stack.extend(t.children())
+            if z3.get_var_index(t) >= depth:
+                return False
+        elif z3.is_quantifier(t):
+            stack.append((t.body(), depth + t.num_vars()))
+        elif z3.is_app(t):
+            stack.extend((c, depth) for c in t.children())
     return True
 
 
@@ -227,6 +234,9 @@ def _both(a, b):
 
 
 def neg(ex, st, v, node):
+    from . import cplx
+    if isinstance(v, cplx.CplxV):
+        return cplx.CplxV(-v.re if not cplx.is_zero(v.re) else v.re, -v.im if not cplx.is_zero(v.im) else v.im)
     if isinstance(v, ty.MatV) or isinstance(v, ty.SeqV):
         return seq_map(ex, st, v, lambda x: -x, node)
     v = _num(ex, st, v, node)
@@ -251,6 +261,11 @@ def binop(ex, st, op, a, b, node):
         return _out(ty.SeqV(t, [z3.K(z3.IntSort(), c)], z3.If(b >= 0, b, 0)), st)
     if isinstance(op, ast.Mod) and isinstance(a, (str, ty.OpaqueV)):
         return _out(ty.OpaqueV("str"), st)
+    from . import cplx
+    if isinstance(op, ast.MatMult) or cplx.is_cplx(a) or cplx.is_cplx(b):
+        r = cplx.binop(ex, st, op, a, b, node)
+        if r is not None:
+            return _out(r, st)
     if isinstance(a, (ty.SeqV, ty.MatV)) or isinstance(b, (ty.SeqV, ty.MatV)):
         return _out(array_binop(ex, st, op, a, b, node), st)
     from .symex import ObjV_binop
@@ -491,6 +506,9 @@ def as_seq(ex, st, v, node):
         return v.as_seq()
     if isinstance(v, Enumerated):
         return v.as_seq()
+    if isinstance(v, ty.MatV):
+        from . import cplx
+        return cplx.mat_rows_seq(v)
     raise _U(f"iteration over {v!r}", node)
 
 
@@ -595,8 +613,19 @@ def get_item(ex, st, cont, idx, node):
                 res.append(_raise("KeyError", s2, node))
         return res
     if isinstance(cont, ty.MatV):
-        from . import nplib
+        from . import nplib, cplx
+        if isinstance(idx, ty.SeqV) and idx.elem is ty.Int:
+            return _out(cplx.rows_by_index(ex, st, cont, idx, node), st)
+        if isinstance(idx, tuple) and len(idx) == 2 and isinstance(idx[0], slice) and idx[0].start is None and idx[0].stop is None \
+                and isinstance(idx[1], ty.SeqV) and idx[1].elem is ty.Int:
+            return _out(cplx.cols_by_index(ex, st, cont, idx[1], node), st)
+        if isinstance(idx, tuple) and len(idx) == 2 and isinstance(idx[1], ty.OptV):
+            ex.safety(st, "none-as-index", z3.Not(idx[1].isnone), node)
+            return get_item(ex, st, cont, (idx[0], idx[1].val), node)
         return nplib.mat_getitem(ex, st, cont, idx, node)
+    if isinstance(cont, ty.OptV):
+        ex.safety(st, "none-subscript", z3.Not(cont.isnone), node)
+        return get_item(ex, st, cont.val, idx, node)
     raise _U(f"subscript of {cont!r}", node)
 
 
@@ -668,6 +697,17 @@ def value_attr(ex, st, v, attr, node):
     if isinstance(v, ty.MatV) and attr == "T":
         from . import nplib
         return _out(nplib.transpose(v), st)
+    if isinstance(v, ty.CMatV) and attr == "T":
+        from . import cplx
+        return _out(cplx.ctranspose(v), st)
+    if isinstance(v, ty.CMatV) and attr == "shape":
+        return _out((v.re.rows, v.re.cols), st)
+    if isinstance(v, ty.MatV) and attr == "astype":
+        from . import cplx
+        return _out(Intrinsic("ndarray.astype", cplx.astype, recv=v), st)
+    if isinstance(v, ty.OptV) and isinstance(v.val, (ty.MatV, ty.SeqV)):
+        ex.safety(st, "none-deref", z3.Not(v.isnone), node)
+        return value_attr(ex, st, v.val, attr, node)
     if isinstance(v, ty.SeqV) and attr == "T":
         return _out(v, st)
     if isinstance(v, ty.SeqV) and attr == "shape":
@@ -986,6 +1026,11 @@ def b_all(ex, st, args, kwargs, node):
 
 def _anyall(ex, st, args, node, is_any):
     (v,) = args
+    from . import cplx
+    if isinstance(v, cplx.BMatV):
+        return _out(cplx.np_all_bmat(ex, st, v, is_any), st)
+    if isinstance(v, bool) or (ty.is_z3(v) and z3.is_bool(v)):
+        return _out(v, st)              # np.all / np.any of a scalar boolean
     items = _items_of(ex, st, v, node)
     if items is not None:
         ts = [ex.truth(x, st, node) for x in items]
@@ -1175,6 +1220,9 @@ def m_warn(ex, st, args, kwargs, node):
 
 def m_np_exp(ex, st, args, kwargs, node):
     (v,) = args
+    from . import cplx
+    if cplx.is_cplx(v):
+        return _out(cplx.np_exp_complex(ex, st, v, node), st)
     v = _num(ex, st, v, node)
     if ty.is_num_const(v) and v == 0:
         return _out(Fraction(1), st)
@@ -1258,6 +1306,9 @@ def _np_minmax(ex, st, args, node, is_min):
 
 
 def m_np_abs(ex, st, args, kwargs, node):
+    from . import cplx
+    if cplx.is_cplx(args[0]):
+        return _out(cplx.np_abs_complex(ex, st, args[0], node), st)
     return b_abs(ex, st, args, kwargs, node)
 
 
@@ -1334,6 +1385,11 @@ MODULE_FUNCS = {
     "copy.copy": m_copy,
     "math.ceil": m_math_ceil,
     "random.choice": m_random_choice,
+    "numpy.deg2rad": lambda ex, st, a, k, n: __import__("pyvc.cplx", fromlist=["x"]).np_deg2rad(ex, st, a, k, n),
+    "numpy.cos": lambda ex, st, a, k, n: __import__("pyvc.cplx", fromlist=["x"]).np_cos(ex, st, a, k, n),
+    "numpy.sin": lambda ex, st, a, k, n: __import__("pyvc.cplx", fromlist=["x"]).np_sin(ex, st, a, k, n),
+    "numpy.stack": lambda ex, st, a, k, n: __import__("pyvc.cplx", fromlist=["x"]).np_stack(ex, st, a, k, n),
+    "numpy.linalg.norm": lambda ex, st, a, k, n: __import__("pyvc.cplx", fromlist=["x"]).np_linalg_norm(ex, st, a, k, n),
 }
 MODULE_CONSTS = {}
 
@@ -1376,7 +1432,7 @@ def symset_card(ex, st, sset, node):
 
 
 def is_symbolic_container(v):
-    return isinstance(v, (ty.SeqV, ty.MapV, SymSet, ty.MatV))
+    return isinstance(v, (ty.SeqV, ty.MapV, SymSet, ty.MatV, ty.CMatV))
 
 
 def mutate(ex, st, recv, meth, args, kwargs, node):
